@@ -1,10 +1,8 @@
 SPECIFICATION Spec
-CONSTANT Family = "C01Clim"
+CONSTANT Family = "C03ClimK1"
 INVARIANT InvSameCases
 INVARIANT InvSameObs
 INVARIANT InvDims
 INVARIANT InvPartition
 INVARIANT InvNonInterference
-INVARIANT InvShiftEquiv
-INVARIANT InvClimNeverScored
 CHECK_DEADLOCK FALSE
